@@ -68,11 +68,18 @@ def draw(site, ct, lab, hide, flim=None):
     nc = ct["Fn"].shape[1]
     cov = site.endswith("+cov")
     base = site.replace("+cov", "")
+    # history: the judged diagram is drawn after an earlier diagram (other hide flag) of the same tables / the same object -
+    # drawing is an observer, what it leaves behind must not show in the next diagram
     if base == "plot.stab_plot":
-        fig, ax = plot.stab_plot(ct["Fn"].copy(), lab.copy(), 1, nc - 1, ordmin=0, hide_poles=hide, freqlim=flim,
-                                 Fn_cov=ct["Fn_cov"].copy() if cov else None)
+        Fn, L, Fc = ct["Fn"].copy(), lab.copy(), (ct["Fn_cov"].copy() if cov else None)
+        plot.stab_plot(Fn, L, 1, nc - 1, ordmin=0, hide_poles=not hide, freqlim=None, Fn_cov=Fc)
+        plt.close("all")
+        fig, ax = plot.stab_plot(Fn, L, 1, nc - 1, ordmin=0, hide_poles=hide, freqlim=flim, Fn_cov=Fc)
     elif base == "plot.cluster_plot":
-        fig, ax = plot.cluster_plot(ct["Fn"].copy(), ct["Xi"].copy(), lab.copy(), ordmin=0, hide_poles=hide, freqlim=flim)
+        Fn, X, L = ct["Fn"].copy(), ct["Xi"].copy(), lab.copy()
+        plot.cluster_plot(Fn, X, L, ordmin=0, hide_poles=not hide, freqlim=None)
+        plt.close("all")
+        fig, ax = plot.cluster_plot(Fn, X, L, ordmin=0, hide_poles=hide, freqlim=flim)
     else:
         cls, meth = base.split(".")
         if cls == "SSIcov":
@@ -84,6 +91,9 @@ def draw(site, ct, lab, hide, flim=None):
             res = pLSCFResult(Fn_poles=ct["Fn"].copy(), Xi_poles=ct["Xi"].copy(), Phi_poles=ct["Phi"].copy(), Lab=lab.copy())
         alg._set_data(np.zeros((8, 3)), fs=100.0)
         alg.result = res
+        alg.plot_stab(hide_poles=not hide)
+        alg.plot_cluster(hide_poles=not hide)
+        plt.close("all")
         fig, ax = getattr(alg, meth)(hide_poles=hide, freqlim=flim)
     m = markers(ax)
     plt.close("all")
